@@ -205,6 +205,10 @@ def run(ctx):
                 ctx.report("C10-maxmin-contagion", "%s/%s" % (nm, kind), "NumberBinaryOperand::%s on %s returns %s%s, expected fields %s" % (nm, kind, gk, got, want), where_of(f))
 
     # ------------------------------------------------------------------ C10-cross-mult
+    ctx.rule("C10-kind-grid", "= and the order on every ordered pair of kinds {integer, ratio, real} with symbolic payloads: at every grid "
+                              "point (integers -2..2, denominators 1..3, ten reals incl. -0.0, 0.0, the infinities, NaN) the selected path "
+                              "answers with the mathematical order (exact operand facing an inexact one converted to binary32 first)")
+    numtables.rule_kind_cmp(ctx, "C10-kind-grid")
     ctx.rule("C10-cross-mult", "ratios are compared by lhs.num*rhs.den against rhs.num*lhs.den, in that order")
     d_cross = numtables.rule_cross(ctx, "C10-cross-mult")
     ctx.guarded("C10-cross-mult", d_cross >= 3, lambda: cross_mult(ctx, fb))
